@@ -816,6 +816,14 @@ ssize_t getrandom(void *buf, size_t len, unsigned int flags) {
   return (ssize_t)len;
 }
 
+/* the pid is a popular ingredient of temporary file names; the CLI is a single process, so a
+ * constant keeps such names - and with them the trace - a function of the seed */
+pid_t getpid(void) {
+  vsim_init();
+  if (g_world) return 4242;
+  return (pid_t)real_syscall(SYS_getpid);
+}
+
 pid_t gettid(void) {
   vsim_init();
   if (g_world) return 4242;
@@ -833,6 +841,6 @@ long syscall(long number, ...) {
   /* the OS thread id shows up in panic messages ("thread 'main' (1234) panicked"); the CLI is
    * single threaded, so a constant keeps message lengths - and with them the event trace -
    * a pure function of the seed */
-  if (g_world && number == SYS_gettid) return 4242;
+  if (g_world && (number == SYS_gettid || number == SYS_getpid)) return 4242;
   return real_syscall(number, a1, a2, a3, a4, a5, a6);
 }
